@@ -168,11 +168,49 @@ RESULTS = {
     "C14-F": ("C14", "ArchiveWriter::flush returns early when no file is in progress",
               "compression layer, flush with no file open (add_file then flush)",
               ("detected", "C14", ["h_lib_writer_flush"], "ArchiveWriter::flush() returned without flushing the destination")),
+    # ---- fourth round
+    "C01-G": ("C01", "compression reader initialize rejects a size table whose last block is exactly 4 MiB (`>=` instead of `>`)",
+              "stream handed to the compression layer an exact multiple of 4 MiB",
+              ("missed", "the check sits behind the bincode deserialisation of the size table, which does not finish under the model checker (h_cmp_init_total stops before it)")),
+    "C01-H": ("C01", "end_file folded into mark_eof: the current-run id is no longer updated when a file is ended inside another file's run",
+              "start A, start B, append B, end A, append B",
+              ("missed", "ArchiveWriter offset index lives in HashMaps (ids_info): outside the claim")),
+    "C02-G": ("C02", "ArchiveFileBlock::from reads the block type with a single read(): an exhausted source parses as EndOfArchiveData",
+              "cut exactly on a block boundary with no file open",
+              ("detected", "C02", ["h_lib_from_name"], "an exhausted source was parsed as a block (type byte 254): a cut on a block boundary looks like a complete archive")),
+    "C02-H": ("C02", "EncryptionLayerFailSafeReader::new turns a missing first chunk into an error",
+              "encrypted archive cut exactly at the end of its header",
+              ("detected", "C02", ["h_enc_fs_new_empty"], "the repair reader cannot be built over an empty stream (archive cut right after its header): EndOfStream")),
+    "C03-G": ("C03", "high-water mark of authenticated chunks: load_in_cache skips the tag check for chunk numbers below it",
+              ">= 3 chunks, alteration in a middle chunk (opening the archive authenticates the last chunk first)",
+              ("detected", "C03", ["h_enc_load_auth_history"], "after a load of chunk 3 (genuine), chunk 2 whose tag was altered was accepted: 4 bytes exposed")),
+    "C03-H": ("C03", "load_in_cache gains a check_tag parameter; a backward seek reloads its chunk without checking the tag",
+              "read order that seeks backward onto a chunk never loaded before, alteration in that chunk",
+              ("detected", "C03", ["h_enc_seek_real"], "reader at chunk 5, then seek(Start(16)): a byte of chunk 4, whose tag was altered, was returned (api-only fallback: the other harness modules no longer build against the changed signature)")),
+    "C08-G": ("C08", "get_file no longer refuses a footer entry with an empty offset list (offsets[0] indexed)",
+              "crafted footer entry with zero offsets",
+              ("missed", "get_file looks the name up in a populated HashMap: outside the claim (BlocksToFileReader::new itself relies on the caller's guard)")),
+    "C08-H": ("C08", "range guard on the chunk number dropped from the encryption reader's seek(Start): position map multiplies with overflow",
+              "stored offset / seek target near u64::MAX, encrypt layer without compression",
+              ("detected", "C08", ["h_enc_seek_total"], "real code panicked: attempt to multiply with overflow")),
+    "C13-G": ("C13", "archive header serialised in memory then emitted with a single write()",
+              "destination accepting only part of its first write",
+              ("missed", "ArchiveHeader::dump goes through bincode serialisation of the configuration: outside the claim")),
+    "C13-H": ("C13", "compression reader chains blocks without re-seeking the inner layer",
+              "short-reading archive source (the decompressor stops fetching once a block's output is complete)",
+              None),
+    "C20-G": ("C20", "mla_archive_file_close clears the caller's file handle before validating the archive handle",
+              "NULL archive handle with a live file handle",
+              ("detected", "C20", ["h_c_null_args"], "mla_archive_file_close(NULL, &live) cleared the caller's live file handle although the call was refused")),
+    "C20-H": ("C20", "callback status helper treats only positive codes as errors",
+              "callback failing with a negative code",
+              ("detected", "C20", ["h_c_adapter"], "callback (status -2147483648, accepted 0) -> write returned Ok(0)")),
 }
 
 # second-round deliverables live in /tmp/m2_<PROP>/out/<A|B>, third-round ones in /tmp/m3_<PROP>/out/<A|B>
 ROUND2_SRC = {"C": "A", "D": "B"}
 ROUND3_SRC = {"E": "A", "F": "B"}
+ROUND4_SRC = {"G": "A", "H": "B"}
 
 
 def main(overrides=None):
@@ -187,7 +225,8 @@ def main(overrides=None):
     summary = []
     for mid, (prop, desc, needs, det) in sorted(res.items()):
         src = (f"/tmp/m2_{prop}/out/{ROUND2_SRC[mid[-1]]}" if mid[-1] in ROUND2_SRC
-               else f"/tmp/m3_{prop}/out/{ROUND3_SRC[mid[-1]]}" if mid[-1] in ROUND3_SRC else f"/tmp/mut_{prop}/out/{mid[-1]}")
+               else f"/tmp/m3_{prop}/out/{ROUND3_SRC[mid[-1]]}" if mid[-1] in ROUND3_SRC
+               else f"/tmp/m4_{prop}/out/{ROUND4_SRC[mid[-1]]}" if mid[-1] in ROUND4_SRC else f"/tmp/mut_{prop}/out/{mid[-1]}")
         dst = os.path.join(out_root, mid)
         if os.path.isdir(src):
             os.makedirs(dst, exist_ok=True)
@@ -210,7 +249,7 @@ def main(overrides=None):
             "change": desc,
             "needs_to_manifest": needs,
             "origin": "independent sub-agent given only the property text and a scratch worktree of /repo (nothing from /verif)"
-                      + ("; second round: also given a one-line list of the first-round changes (to avoid repeats) and a list of candidate source files" if mid[-1] in ROUND2_SRC or mid[-1] in ROUND3_SRC else ""),
+                      + ("; second round: also given a one-line list of the first-round changes (to avoid repeats) and a list of candidate source files" if mid[-1] in "CDEFGH" else ""),
             "confirmation": conf,
             "confirmation_procedure": "bin/confirm_seeded.py in a scratch worktree: demo on the pristine tree passes; demo with the "
                                       "change fails; whole pinned suite with the change passes (flaky test_repair_auth_unauth ignored)",
